@@ -455,9 +455,10 @@ pub fn run(args: &Args) -> Report {
         ks: if thorough { vec![0, 1, 2, 3, 4, 5] } else { vec![0, 1, 2] },
         env: 0,
         fault: 0,
-        total_wall: Duration::from_secs(if thorough { 1500 } else { 25 }),
+        total_wall: Duration::from_secs(if thorough { 1500 } else { 50 }),
         max_execs_per_case: 400_000,
         required_witnesses: W_ABORT_SEEN | W_BYST_DONE | W_REUSE_ACKED | W_REUSE_LOCAL | W_TABLES_EMPTY,
+        adaptive: thorough,
         witness_names: &[("abort_observed_as_eof", W_ABORT_SEEN), ("all_futures_completed", W_BYST_DONE), ("peer_reopen_of_same_id_acknowledged", W_REUSE_ACKED), ("local_reopen_drew_same_id", W_REUSE_LOCAL), ("flow_tables_empty_at_end", W_TABLES_EMPTY)],
     };
     rep.rule = "driver A: two real endpoints, a victim stream under every pair of close histories (shutdown?/drop/read orders with data in flight), a bystander stream with traffic both ways and a follow-up stream, all schedules <= k deviations: C05's reference model on the victim, bystander/follow-up must complete with equality, flow tables (hook) empty once nobody holds a stream. driver B: real endpoint + raw peer, every sequence of <= L open/close cycles over 8 variants (clean, local abort, peer reset, finish-first, overrun, locally opened clean/rejected/aborted) re-using the SAME flow id at link quiescence: the re-opened id must be acknowledged (slot free, black box), start with fresh credit, empty buffer and no closed flag; the endpoint's scripted generator must draw the same id again".into();
